@@ -181,13 +181,13 @@ impl Prop for C02 {
         let mut units = corpus_units(
             &Space {
                 k: if thorough { 2 } else { 1 },
-                ctx_limit: if thorough { 99 } else { 2 },
+                ctx_limit: if thorough { 3 } else { 2 },
                 layouts: if thorough {
                     vec![Layout::L0, Layout::LAll, Layout::LNone, Layout::LBlank(2), Layout::LTabs]
                 } else {
                     vec![Layout::L0, Layout::LAll]
                 },
-                style_editions: if thorough { vec![2015, 2018, 2021, 2024] } else { vec![2015, 2024] },
+                style_editions: vec![2015, 2024],
                 cfg_mode: if thorough { CfgMode::Dev1All } else { CfgMode::Dev1Relevant },
                 cfg_ctx_limit: if thorough { 3 } else { 1 },
                 l1: thorough,
@@ -195,6 +195,9 @@ impl Prop for C02 {
             },
             None,
         );
+        if thorough {
+            units.retain(super::thorough_economy);
+        }
         if !thorough {
             // quick: deviated configurations start from the one-line layout only; deviated forms
             // under style edition 2024 only (base forms under 2015 and 2024)
